@@ -218,6 +218,8 @@ pub use crate::action::{Timer, TriggerAction};
 pub use crate::error::Error;
 pub use crate::event::TriggerEvent;
 pub use framework::{Framework, MachineId};
+#[cfg(feature = "verif")]
+pub use framework::{VerifSnapshot, VerifStep};
 pub use machine::Machine;
 
 #[cfg(feature = "parsing")]
